@@ -1227,6 +1227,28 @@ func selectCands(e *Exec, x int, r *rand.Rand) []Num {
 		}
 	}
 	cands = append(cands, n, n.add(Num{1}), n.add(numFromU64(uint64(r.Intn(1000)))))
+	// indexes inside cells (decided by the exact oracle of the executor): the first element after the end of a few
+	// maximal intervals of the real set (the index that follows a saturated word / a run / a full chunk), its
+	// predecessor, and a uniformly drawn index
+	if raw := e.rawSet(x); len(raw) > 0 && len(raw) < 1<<20 {
+		var cum uint64
+		pickAt := map[int]bool{r.Intn(len(raw)): true, r.Intn(len(raw)): true, r.Intn(len(raw)): true}
+		for j, sp := range raw {
+			if sp.hi-sp.lo == ^uint64(0) {
+				break
+			}
+			cum += sp.hi - sp.lo + 1
+			if cum < sp.hi-sp.lo+1 {
+				break // overflow of a 64-bit count
+			}
+			if pickAt[j] || (sp.hi&63 == 63 && sp.hi-sp.lo >= 63 && r.Intn(2) == 0) {
+				cands = append(cands, numFromU64(cum), numFromU64(cum-1), numFromU64(cum), numFromU64(cum))
+			}
+		}
+		if cum > 0 {
+			cands = append(cands, numFromU64(uint64(r.Int63n(int64(cum>>1)+1))))
+		}
+	}
 	limit := numFromU64(0xFFFFFFFF)
 	if e.u.Bits == 64 {
 		limit = numFromU64(^uint64(0))
